@@ -342,3 +342,23 @@ def c11_10(ctx, r):
         r.check(not escaped, "a failing local run still removes the cluster files", key_of(fn, "local cluster files survive a failed run"), fn.loc(sn),
                 "an exception out of mgr.submit_jobs() leaves run_submit_jobs without cluster.delete_files_internal() in local mode: a later `jade try-submit-jobs <output>` is promoted on the leftover "
                 "cluster state and JobRunner starts every job again", "no job is handed to the HPC twice or started twice")
+
+
+@rule(P, "C11.11", "T4", "a status update that failed is seen by the round: no handler between the hand-off and the marker removal swallows it", min_obligations=3)
+def c11_11(ctx, r):
+    """The round removes the crashed-round marker only because _update_status returned.  If the update failed (lock timeout, I/O error) and some
+    function on the way - Cluster.update_job_status, HpcSubmitter._update_status, run itself - catches the exception and carries on, the round
+    ends 'normally': marker removed, role released, while job_status.json still says not_submitted and the batch index is not advanced.  The
+    next round hands every one of those jobs to the HPC again."""
+    from ..lib import swallowing_handlers
+
+    chain = [("HpcSubmitter.run", "HpcSubmitter._update_status"), ("HpcSubmitter._update_status", "Cluster.update_job_status"), ("Cluster.update_job_status", "Cluster._do_action_under_lock")]
+    for caller, callee in chain:
+        fn = ctx.fn(caller, "C11.11")
+        sites = ctx.some_sites(fn, "C11.11", short=callee)
+        for s in sites:
+            hs = swallowing_handlers(ctx, fn, s.node)
+            what = ", ".join(sorted({ctx.src(h.type) if h.type is not None else "everything" for h in hs}))
+            r.check(not hs, f"{caller}: a failure of {callee.split('.')[-1]}() propagates", key_of(fn, f"swallows a failed {callee.split('.')[-1]}"), s.loc,
+                    f"{caller} catches {what} around {callee.split('.')[-1]}() and goes on: when the status update fails after batches were handed to the HPC, the round still removes its marker and releases the role, "
+                    "with the jobs recorded as not_submitted - the next round submits them again", "no job handed to the HPC twice ... later invocations refuse to act")
